@@ -184,8 +184,16 @@ def setup():
       return AsyncResult.Complete()
 
     def Close(self):
-      self.world.events.append(['close', self.nid])
+      w = self.world
+      w.events.append(['close', self.nid])
       self._st = 4
+      if w.raise_on_close:
+        # closing the member's sink fails (the removal hook of the balancer raises)
+        w.raise_on_close = False
+        raise ChanCloseError('closing channel %d failed' % self.nid)
+      if w.close_fails and w.on_close is not None:
+        # like the real transports: Close() fails the requests still in flight, synchronously
+        w.on_close(self)
 
     def AsyncProcessRequest(self, sink_stack, msg, stream, headers):
       sink_stack.Push(self, None)
@@ -195,6 +203,9 @@ def setup():
       sink_stack.AsyncProcessResponse(stream, msg)
 
   class CallerError(Exception):
+    pass
+
+  class ChanCloseError(Exception):
     pass
 
   class Caller(ClientMessageSink):
@@ -288,7 +299,7 @@ def setup():
             MessageProperties=MessageProperties, HeapBalancerSink=HeapBalancerSink,
             ApertureBalancerSink=ApertureBalancerSink, Message=Message, MethodReturnMessage=MethodReturnMessage,
             TimeoutError=TimeoutError, Chan=Chan, Caller=Caller, RecStack=RecStack, Provider=Provider,
-            CallerError=CallerError, Member=Member, ServerSet=ServerSet, rnd=rnd, tap=tap, heapmod=heapmod, stubq=stubq, BalProv=BalProv,
+            CallerError=CallerError, ChanCloseError=ChanCloseError, Member=Member, ServerSet=ServerSet, rnd=rnd, tap=tap, heapmod=heapmod, stubq=stubq, BalProv=BalProv,
             FakeClock=FakeClock, ClientTimeoutSink=ClientTimeoutSink, Deadline=Deadline,
             SharedSinkProvider=SharedSinkProvider)
 
@@ -299,6 +310,9 @@ class World(object):
     self.epname = bool(case.get('epname'))
     self.epobj = bool(case.get('epobj'))
     self.shared = bool(case.get('shared'))
+    self.close_fails = bool(case.get('close_fails')) and case.get('kind', 'heap') != 'aperture_real'
+    self.raise_on_close = False
+    self.on_close = None
     self.events = []
     self.opens = []
     self.received = []
@@ -546,11 +560,46 @@ def _run_impl(case):
     ch._st = st
     record(['setchan', ch.nid, st], {'t': 'set'}, opi, extra)
 
-  def notify(kind, ep, opi, noaux=False):
+  cur = {'label': None, 'opi': None, 'recorded': False}
+
+  def on_close(ch):
+    """Close() of a channel with requests in flight (close_fails mode): they fail now, re-entrantly.  A Leave
+    notification in progress is recorded first (in the code as it is the node is unlinked before it is closed),
+    then one Complete per failed request."""
+    mine = [r for r in out_reqs if r['nid'] == ch.nid]
+    if not mine:
+      return
+    if cur['label'] is not None and not cur['recorded']:
+      cur['recorded'] = True
+      record(cur['label'], {'t': 'applied', 'exc': None}, cur['opi'], {'closed_with_requests_in_flight': len(mine)})
+    for req in mine:
+      if req in out_reqs:
+        out_reqs.remove(req)
+        done_reqs.append(req)
+        do_complete(req, 1, 'error', cur['opi'] if cur['opi'] is not None else -1)
+  w.on_close = on_close
+
+  def notify(kind, ep, opi, noaux=False, close_raises=False):
+    if not noaux and state['init']:
+      cur.update(label=[kind, ep], opi=opi, recorded=False)
+    w.raise_on_close = bool(close_raises)
     q.put((kind, ep, noaux))
     prog['enq'] += 1
     settle()
+    w.raise_on_close = False
     applied = prog['done'] == prog['enq']
+    pre_recorded = cur['recorded']
+    cur.update(label=None, opi=None, recorded=False)
+    if pre_recorded:
+      ref_members.pop(ep, None)
+      prog['exc'] = None
+      return
+    if close_raises and prog['exc'] == 'ChanCloseError':
+      # the scripted failure of Close(): the callback raised to the provider, as it must
+      ref_members.pop(ep, None)
+      record([kind, ep], {'t': 'applied' if applied else 'blocked', 'exc': None, 'close_raised': True}, opi)
+      prog['exc'] = None
+      return
     if noaux:
       # a member without the configured named endpoint: base.py raises ValueError to the provider
       record(['noaux', kind, ep], {'t': 'applied' if applied else 'blocked', 'noaux_exc': prog['exc']}, opi)
@@ -580,6 +629,11 @@ def _run_impl(case):
         if not state['init']:
           pending_notifs.append((k, mapep(op[1])))
         notify(k, mapep(op[1]), opi)
+      elif k == 'leave_closefail':
+        # a leave during which closing the member's channel raises
+        if not state['init']:
+          pending_notifs.append(('leave', mapep(op[1])))
+        notify('leave', mapep(op[1]), opi, close_raises=(state['init'] and not ap_real))
       elif k in ('join_noaux', 'leave_noaux'):
         if not (epname and state['init']):
           state['skipped'] += 1
@@ -711,6 +765,8 @@ def _run_impl(case):
         raise ValueError('unknown op %r' % (op,))
   finally:
     _S['tap'].world = None
+    w.on_close = None
+    w.raise_on_close = False
     try:
       if dl is not None:
         dl.kill(block=False)
@@ -1415,6 +1471,28 @@ def gen_case(r, pid, size_hint=None, aperture_share=0.15):
     ops.append(['isolate', r.randrange(0, 64)])
   if r.random() < 0.7:
     case['epobj'] = True           # endpoints are objects; every notification carries a fresh, equal one
+  first = next(i for i, o in enumerate(ops) if o[0] == 'init') + 1
+  if r.random() < {'C03': 0.25, 'C04': 0.3, 'C05': 0.35}[pid]:
+    # channels whose Close() fails their in-flight requests synchronously (as the real transports do); pattern:
+    # every member's channel drops, a request marks them down, a member leaves while marked down and loaded
+    case['close_fails'] = True
+    for _ in range(r.choice([1, 2, 3])):
+      pat = [['dispatch']] * r.choice([0, 2, len(universe)])
+      pat += [['setchan', 'member', k_, 4] for k_ in range(len(universe))]
+      pat += [['dispatch']] * r.choice([1, 1, 2])
+      e_ = r.choice(universe)
+      pat += [['leave', e_]] + ([['dispatch']] if r.random() < 0.7 else []) + ([['join', e_]] if r.random() < 0.5 else [])
+      at = r.randrange(first, len(ops))
+      ops[at:at] = pat
+  if r.random() < {'C03': 0.2, 'C04': 0.3, 'C05': 0.45}[pid]:
+    # leaves during which closing the member's channel raises (the removal hook of the balancer fails)
+    for i_, o_ in enumerate(ops):
+      if o_[0] == 'leave' and i_ >= first and r.random() < 0.4:
+        ops[i_] = ['leave_closefail', o_[1]]
+    for _ in range(r.choice([1, 2])):
+      e_ = r.choice(universe)
+      at = r.randrange(first, len(ops))
+      ops[at:at] = [['join', e_], ['leave_closefail', e_], ['join', e_], ['dispatch']]
   if r.random() < sh['tsink']:
     case['tsink'] = True
   if r.random() < sh['epname']:
@@ -1502,6 +1580,11 @@ def stats(cases, obs):
       c['cases_with_named_endpoint_provider'] += 1
     if cs.get('epobj'):
       c['cases_with_fresh_endpoint_objects_per_notification'] += 1
+    if cs.get('close_fails'):
+      c['cases_with_Close_failing_inflight_requests'] += 1
+    c['leave_closed_channel_with_requests_in_flight_reentrant_completions'] += sum(
+        1 for st_ in o['steps'] if st_.get('closed_with_requests_in_flight'))
+    c['leave_during_which_Close_raised'] += sum(1 for st_ in o['steps'] if st_['res'].get('close_raised'))
     if cs.get('shared'):
       c['cases_with_real_SharedSinkProvider_channels'] += 1
       c['shared_connection_reopened'] += max(0, sum(1 for st_ in o['steps'] for e_ in st_['events'] if e_[0] == 'open')
